@@ -2,7 +2,7 @@
 
 Engine E5 (explicit-state search on biom.err).
 Part 1: all sequences of seterr / seterrcall / errstate enter / exit-normally /
-exit-by-exception up to the depth bound (nesting <= 3) on a 19-operation alphabet, and a
+exit-by-exception (and: build a manager now, enter it later) up to the depth bound (nesting <= 3), and a
 reduced alphabet to FIXPOINT; after every transition geterr()/geterrcall() must equal a
 reference model of a scoped configuration stack; in every reached state the reaction of
 the 'empty' and 'obsdup' kinds is probed and compared with the model's prediction.
@@ -19,8 +19,8 @@ import numpy as np
 from ..core import h64, vacuity
 
 LEVEL = 'model_checking'
-RULE = ('part 1: explicit-state BFS over all sequences of 19 profile operations (nesting <= 3) to the depth '
-        'bound plus a reduced alphabet to fixpoint; state = (profile, saved profiles of the open errstate '
+RULE = ('part 1: explicit-state BFS over all sequences of 25 profile operations (nesting <= 3) to the depth '
+        'bound, a reduced alphabet to fixpoint, and a 13-operation alphabet in which a manager is built at one moment and entered at a later one (at most one such object at a time); state = (profile, saved profiles of the open errstate '
         'managers, callbacks); every transition checked against a stack model and two reaction probes per '
         'state; non-trivial transition = changes the canonical state. part 2: 7 kinds x 5 reactions x '
         '{triggering exactly that kind, non-triggering} x call sites')
@@ -53,6 +53,11 @@ ENTER_ARGS = [{'empty': 'raise'}, {'obsdup': 'ignore'}, {'all': 'print'}, {'empt
 REDUCED = ([('seterr', 'empty', r) for r in ('ignore', 'raise', 'call')] + [('seterr_all', 'warn')] +
            [('seterrcall', 'empty', 'cb_one'), ('seterrcall', 'empty', 'cb_two'), ('trigger', 'empty')] +
            [('enter', 0), ('enter', 2), ('enter', 3), ('exit',), ('exit_exc',), ('exit_base',)])
+# a manager object built at one moment and entered at a later one (at most one such object at a time)
+DEFERRED = ([('seterr', 'empty', 'ignore'), ('seterr', 'empty', 'raise'), ('seterr', 'obsdup', 'call'),
+             ('seterr_all', 'warn'), ('trigger', 'empty')] +
+            [('create', 0), ('create', 1), ('create', 3), ('enter_pending',), ('enter', 2)] +
+            [('exit',), ('exit_exc',), ('exit_base',)])
 
 
 class Boom(RuntimeError):
@@ -70,6 +75,7 @@ class Model:
         self.stack = []            # saved profiles of the open scoped overrides
         self.cbs = {}
         self.triggered = set()     # kinds whose reaction has fired at least once (reads may leave hidden state)
+        self.pending = None        # index into ENTER_ARGS of the manager built but not yet entered
 
     def apply_update(self, upd):
         """returns False when the update must be refused (profile untouched)"""
@@ -103,6 +109,7 @@ class World:
         import biom.err as err
         self.err = err
         self.managers = []
+        self.pending = None
 
 
 DEFAULTS = None
@@ -172,11 +179,21 @@ def step(op, w, m):
         except KeyError:
             if op[1] in KINDS:
                 out.append(('seterrcall:raised', 'seterrcall(%r) raised KeyError' % op[1]))
-    elif kind == 'enter':
-        if len(w.managers) >= MAXNEST:
+    elif kind == 'create':
+        if w.pending is not None:
             raise Skip()
-        kw = ENTER_ARGS[op[1]]
-        cm = err.errstate(**kw)
+        w.pending = err.errstate(**ENTER_ARGS[op[1]])
+        m.pending = op[1]
+    elif kind in ('enter', 'enter_pending'):
+        if len(w.managers) >= MAXNEST or (kind == 'enter_pending' and w.pending is None):
+            raise Skip()
+        if kind == 'enter':
+            kw = ENTER_ARGS[op[1]]
+            cm = err.errstate(**kw)
+        else:
+            kw = ENTER_ARGS[m.pending]
+            cm = w.pending
+            w.pending = m.pending = None
         saved = dict(m.cur)
         valid = Model(m.cur).apply_update(kw)
         try:
@@ -216,7 +233,8 @@ def step(op, w, m):
         diffk = sorted(k for k in got if got[k] != m.cur.get(k))
         what = {'bad': 'refused-update-changed-profile', 'exit': 'not-restored-after-normal-exit',
                 'exit_exc': 'not-restored-after-exception', 'exit_base': 'not-restored-after-exception',
-                'enter': 'override-not-in-force',
+                'enter': 'override-not-in-force', 'enter_pending': 'override-not-in-force',
+                'create': 'building-a-manager-changed-profile',
                 'seterrcall': 'seterrcall-changed-profile'}.get(kind, 'seterr-not-applied')
         out.append(('profile:' + what, 'after %r geterr() differs from the scoped-stack model in %r: got %r, '
                     'model %r' % (op, diffk, {k: got[k] for k in diffk}, {k: m.cur[k] for k in diffk})))
@@ -232,12 +250,24 @@ class Skip(Exception):
 
 def key(w, m):
     err = w.err
-    saved = []
-    for cm in w.managers:
-        fr = cm.gen.gi_frame
-        saved.append(tuple(sorted(fr.f_locals.get('old_state', {}).items())) if fr is not None else None)
+    saved = [_cm_state(cm) for cm in w.managers]
+    pend = (m.pending, _cm_state(w.pending)) if w.pending is not None else None
     return h64((tuple(sorted(err.geterr().items())), tuple(saved), tuple(sorted(m.cbs.items())),
-                tuple(sorted(m.triggered))))
+                tuple(sorted(m.triggered)), pend))
+
+
+def _cm_state(cm):
+    """whatever a live manager remembers: the locals of a generator-based one, the fields of a class-based one"""
+    from ..core import jsonable
+    g = getattr(cm, 'gen', None)
+    if g is not None:
+        fr = getattr(g, 'gi_frame', None)
+        d = dict(fr.f_locals) if fr is not None else None
+    else:
+        d = dict(getattr(cm, '__dict__', {}))
+    if d is None:
+        return None
+    return repr(sorted((k, repr(jsonable(v))) for k, v in d.items() if not callable(v)))
 
 
 def probe(w, m, kinds=('empty', 'obsdup')):
@@ -297,6 +327,7 @@ def build(hist):
 
 
 def unwind(w):
+    w.pending = None
     while w.managers:
         try:
             w.managers.pop().__exit__(None, None, None)
@@ -505,6 +536,8 @@ def run(run):
     depth = 5 if run.quick else 7
     search(run, FULL_ALPHABET, depth, 'full-alphabet-d%d' % depth)
     fix = search(run, REDUCED, 40, 'reduced-alphabet-fixpoint')
+    dd = 6 if run.quick else 9
+    search(run, DEFERRED, dd, 'deferred-entry-d%d' % dd)
     if not fix:
         run.cap('reduced alphabet did not reach a fixpoint within depth 40')
     cases = [(k, r, s, trig) for k in KINDS for r in REACTIONS for s in SITES for trig in (True, False)]
@@ -514,7 +547,7 @@ def run(run):
     run.extra['enter_args'] = ENTER_ARGS
     run.extra['max_nesting'] = MAXNEST
     vacuity(run, ['op:' + o for o in ('seterr', 'seterr_all', 'bad', 'seterrcall', 'trigger', 'enter', 'exit', 'exit_exc',
-                                 'exit_base')] +
+                                 'exit_base', 'create', 'enter_pending')] +
             ['clause:reaction:' + r for r in REACTIONS] + ['site:' + s for s in SITES])
     reset_world()
     run.assumptions += ['errstate context managers are driven by hand (__enter__/__exit__), leaving by exception is '
